@@ -22,7 +22,7 @@
 (***************************************************************************)
 EXTENDS Lifecycle, Integers, TLC
 
-CONSTANTS Kind,      \* "appchain" | "service" | "role"
+CONSTANTS Kind,      \* "appchain" | "service" | "role" | "node"
           MaxOpen    \* bound on stacked open proposals
 
 LAST == "LAST"
@@ -38,12 +38,16 @@ Tbl ==
           freeze   |-> Ev({"available", "logouting"}, "freezing", "frozen", LAST),
           activate |-> Ev({"frozen", "logouting"}, "activating", "available", LAST),
           logout   |-> Ev({"available", "updating", "freezing", "frozen", "activating", "pause"}, "logouting", "forbidden", LAST)]
+    [] Kind = "node" ->   \* bind / unbind follow the registration and the fate of the audit admin bound to the node
+         [update   |-> Ev({"available", "binded", "logouting"}, "updating", LAST, LAST),
+          bind     |-> Ev({"available", "logouting"}, "binding", "binded", "available"),
+          logout   |-> Ev({"available", "binding", "binded", "updating"}, "logouting", "forbidden", LAST)]
     [] OTHER ->
          [freeze   |-> Ev({"available", "activating", "logouting"}, "freezing", "frozen", LAST),
           activate |-> Ev({"frozen", "freezing", "logouting"}, "activating", "available", LAST),
           logout   |-> Ev({"available", "freezing", "frozen", "activating", "binding"}, "logouting", "forbidden", LAST),
           bind     |-> Ev({"frozen"}, "binding", "available", "frozen")]
-Edges == CASE Kind = "appchain" -> AppchainEdges [] Kind = "service" -> ServiceEdges [] OTHER -> RoleEdges
+Edges == CASE Kind = "appchain" -> AppchainEdges [] Kind = "service" -> ServiceEdges [] Kind = "node" -> NodeEdges [] OTHER -> RoleEdges
 
 VARIABLES st,      \* status of the object
           stack,   \* open proposals, oldest first: [ev, last]
@@ -65,7 +69,7 @@ Conclude(approve) ==
   /\ stack # <<>>
   /\ LET top == stack[Len(stack)]
          e   == Tbl[top.ev]
-         to  == IF approve THEN e.ok ELSE IF e.no = LAST THEN top.last ELSE e.no
+         to  == IF approve THEN (IF e.ok = LAST THEN top.last ELSE e.ok) ELSE IF e.no = LAST THEN top.last ELSE e.no
      IN /\ st = e.mid                       \* suspended (paused) or locked proposals cannot be voted
         /\ st' = to /\ Track(to, 0)
         /\ stack' = IF to = "forbidden" THEN <<>> ELSE SubSeq(stack, 1, Len(stack) - 1)
@@ -84,9 +88,12 @@ Unpause ==
   \/ /\ Kind = "service" /\ st = "pause"
      /\ LET to == IF stack = <<>> THEN "available" ELSE Tbl[stack[Len(stack)].ev].mid IN st' = to /\ Track(to, 1)
      /\ UNCHANGED stack
+\* the audit admin bound (or being bound) to the node is logged out or bound elsewhere
+Unbind == /\ Kind = "node" /\ st \in {"binded", "binding"} /\ st' = "available" /\ Track("available", 1)
+          /\ stack' = IF st = "binding" /\ stack # <<>> THEN SubSeq(stack, 1, Len(stack) - 1) ELSE stack
 Clear == /\ Kind = "service" /\ st \in {"pause", "logouting"} /\ st' = "forbidden" /\ stack' = <<>> /\ Track("forbidden", 1)
 
-Next == (\E ev \in DOMAIN Tbl : Submit(ev)) \/ Conclude(TRUE) \/ Conclude(FALSE) \/ Pause \/ Unpause \/ Clear
+Next == (\E ev \in DOMAIN Tbl : Submit(ev)) \/ Conclude(TRUE) \/ Conclude(FALSE) \/ Pause \/ Unpause \/ Clear \/ Unbind
 Spec == Init /\ [][Next]_vars
 
 EdgeOK    == [][LifecycleViol(Kind, Edges, Obs(st), Obs(st'), 1) = {}]_vars
